@@ -8,6 +8,8 @@ Returns a JSON-able dict; never raises for oracle-unsupported constructs (they a
 import traceback
 
 import numpy as np
+import ufl
+import ufl.algorithms.check_arities
 
 from . import cjit, kernels, oracle, pipeline
 
@@ -121,7 +123,7 @@ def compare_entry(entry, options=None, seed=0, reps=1, all_entities=False, kinds
                             "coordinate_dofs": [float(v) for v in inp["coordinate_dofs"]],
                         })
                         break
-    except Exception as ex:
+    except (Exception, ufl.algorithms.check_arities.ArityMismatch) as ex:
         out["error"] = f"{type(ex).__name__}: {ex}"
         out["trace"] = traceback.format_exc()[-1200:]
     return out
